@@ -137,7 +137,10 @@ package ociunify
 //@   ensures[needs-both-writers] result.1 == nil ==> r0.err == nil && r1.err == nil
 //@ func (unifier).PushBlobChunkedResume
 //@   private ids
-//@   ensures[needs-both-writers-at-the-same-size] result.1 == nil ==> r0.err == nil && r1.err == nil
+//@   ensures[needs-both-writers] result.1 == nil ==> r0.err == nil && r1.err == nil
+//@   ensures[and-at-the-same-size] result.1 == nil ==>
+//@     calls == [u.r0.PushBlobChunkedResume(_, repo, ids[0], offset, chunkSize), u.r1.PushBlobChunkedResume(_, repo, ids[1], offset, chunkSize), w0.Size(), w1.Size()] &&
+//@     calls[2].result == calls[3].result
 //@ func (unifier).PushBlobChunkedResume$1
 //@   requires len(ids) == 2 && (i == 0 || i == 1) && r != nil
 //@ func (*unifiedBlobWriter).Write$1
